@@ -435,7 +435,7 @@ func (s *mstate) step(i, k int, g *guide, ids map[*Op]int) *mstate {
 		}
 		return nil
 	case "select":
-		if k >= len(o.Cs) {
+		if k >= len(o.Cs) || o.Cs[k] < 0 { // a timeout clause is never ready
 			return nil
 		}
 		return take(o.Cs[k], false)
